@@ -10,3 +10,14 @@ import XProofs.Properties.C10
 #print axioms Properties.C10.C10_step_within_max_step
 #print axioms Properties.C10.C10_trial_point_inside
 #print axioms Properties.C10.C10_consecutive_rows_within_max_step
+
+#print axioms Properties.C10.C10_checked_step_is_bounded
+#print axioms Properties.C10.C10_consecutive_rows_of_bounded_steps
+#print axioms Properties.C10.C10_solver_x_agrees_after_step
+#print axioms Properties.C10.C10_two_calls_within_max_step
+#print axioms MaxStep.optStep_chain
+#print axioms MaxStep.optStep_chain_of_loopOK
+#print axioms MaxStep.optStep_two_calls
+#print axioms MaxStep.LoopTrialOK.loopOK
+#print axioms MaxStep.Ex.run_chain
+#print axioms MaxStep.Ex.loopTrialOK_refutable
